@@ -3,8 +3,10 @@ package mon
 import (
 	"fmt"
 	"math"
+	"regexp"
 	"runtime"
 	"runtime/debug"
+	"strconv"
 	"strings"
 	"syscall"
 	"unsafe"
@@ -146,6 +148,14 @@ var c20Families = []family{
 	{name: "setter password", frag: ":@", setter: "password"},
 	{name: "setter port", frag: "1", setter: "port"},
 	{name: "setter protocol", frag: "a", suffix: ":", setter: "protocol"},
+	// the repeated fragment is itself a long token ({T} = 1 300 and 5 000 bytes: beyond the growth steps
+	// of a byte buffer): many long path segments, long parameter values, long labels
+	{name: "path segments of 1300", prefix: "http://h", frag: "/{T1300}"},
+	{name: "path segments of 5000", prefix: "http://h", frag: "/{T5000}"},
+	{name: "path segments of 1300 then ..", prefix: "http://h", frag: "/{T1300}/.."},
+	{name: "query values of 1300", prefix: "http://h/?", frag: "k={T1300}&", sp: true},
+	{name: "nonspecial segments of 1300", prefix: "a:", frag: "/{T1300}"},
+	{name: "host labels of 60", prefix: "http://", frag: "{T60}.", suffix: "com/"},
 	{name: "path /.", prefix: "http://h", frag: "/."},
 	{name: "path /%2e", prefix: "http://h", frag: "/%2e"},
 	{name: "path long segment", prefix: "http://h/", frag: "a"},
@@ -178,7 +188,14 @@ var c20Families = []family{
 	{name: "file ref vs long file base", prefix: "x", frag: "", base: "LONGFILE"},
 }
 
+var longTokenRe = regexp.MustCompile(`\{T(\d+)\}`)
+
 func (f family) build(n int) (input, base string) {
+	if m := longTokenRe.FindStringSubmatch(f.frag); m != nil {
+		k, _ := strconv.Atoi(m[1])
+		f.frag = strings.Replace(f.frag, m[0], strings.Repeat("a", k), 1)
+		n *= 16 // many repetitions of a long token: 16 KiB .. 256 KiB in quick (the measurement records the real length)
+	}
 	prefix := strings.Replace(f.prefix, "/DEEP", strings.Repeat("/d", n/4), 1)
 	reps := n / max(1, len(f.frag))
 	if strings.Contains(prefix, "{S}") {
@@ -273,7 +290,7 @@ type measurement struct {
 
 func measure(f family, n int) measurement {
 	input, base := f.build(n)
-	m := measurement{n: n}
+	m := measurement{n: max(1, len(input)+len(base))} // the abscissa is the real input length
 	runtime.GC()
 	old := debug.SetGCPercent(-1)
 	var m0, m1 runtime.MemStats
@@ -358,7 +375,7 @@ func (c20) Exec(ctx *core.Ctx, cs *core.Case) {
 			return
 		}
 		ms = append(ms, mm)
-		ns = append(ns, n)
+		ns = append(ns, mm.n) // real input length
 		allocs = append(allocs, mm.alloc)
 		steps = append(steps, mm.steps)
 		cpus = append(cpus, mm.cpu)
